@@ -41,6 +41,9 @@ type Options struct {
 	// d1/schema.graphqls, ...), which the follow-schema layouts merge into one generated file;
 	// directive declarations are then spread over the files
 	SameBase bool
+	// ExecNames: type names that are also exported identifiers of the generated exec file (Config,
+	// ResolverRoot, ...) - only sensible when the models live in a package of their own
+	ExecNames bool
 }
 
 type Schema struct {
@@ -111,6 +114,9 @@ type dirDef struct {
 
 var plainTypeNames = []string{"User", "Post", "Comment", "Item", "Order", "Thing", "Widget", "Gadget", "Node2", "Entry", "Group", "Label", "Shape", "Event", "Asset"}
 var hostileTypeNames = []string{"Type", "Func", "Map", "Error", "String_", "Int_", "URL", "HTTPServer", "ApiKey", "Id", "XMLHttpRequest", "My_Type", "_Leading", "Trailing_", "a_b_c", "lowercase", "T", "Interface_", "Chan", "Select", "Range", "Package_", "JSON", "Uuid", "IPAddress"}
+
+// ExecFileTypeNames: exported identifiers of every generated exec file.
+var ExecFileTypeNames = []string{"Config", "ResolverRoot", "DirectiveRoot", "ComplexityRoot"}
 var plainFieldNames = []string{"id", "name", "title", "count", "items", "owner", "parent", "children", "value", "score", "active", "tags", "createdAt", "kind", "ref", "other", "next", "prev", "extra", "note"}
 var hostileFieldNames = []string{"type", "func", "map", "range", "select", "chan", "go", "defer", "interface", "struct", "package", "import", "var", "const", "string", "int", "error", "nil", "true", "len", "new", "make", "append", "url", "id", "userId", "user_id", "HTTPStatus", "apiURL", "_private", "trailing_", "a_b", "x1"}
 var enumValuePool = []string{"RED", "GREEN", "BLUE", "ACTIVE", "INACTIVE", "A", "B", "C", "ONE", "TWO", "UNKNOWN"}
@@ -126,6 +132,9 @@ func (g *gen) typeName(kind string) string {
 	pool := plainTypeNames
 	if g.opt.Hostile {
 		pool = append(append([]string{}, plainTypeNames...), hostileTypeNames...)
+	}
+	if g.opt.ExecNames {
+		pool = append(append(append([]string{}, pool...), ExecFileTypeNames...), ExecFileTypeNames...)
 	}
 	for try := 0; try < 50; try++ {
 		n := rapid.SampledFrom(pool).Draw(g.t, "typename")
